@@ -655,6 +655,50 @@ func verifyListViews(l at.List, vals []any, kinds []Kind, predSel int, resMode i
 			}
 		}
 	}
+	// a callback that replaces an element which is still ahead: the view hands over what Get returns when
+	// the element is visited (done on a second list holding the same elements, so that l stays as it is)
+	if n >= 2 {
+		at0 := predSel % (n - 1)
+		for variant, name := range []string{"ForEach", "ForEachValue", "Map", "MapValues", "Filter", "Reduce"} {
+			l2 := at.NewList(l.Slice()...)
+			want2 := append([]any{}, vals...)
+			want2[n-1] = "replaced ahead"
+			var seen []any
+			step := 0
+			visit := func(x any) {
+				seen = append(seen, x)
+				if step == at0 {
+					l2.Replace(n-1, "replaced ahead")
+				}
+				step++
+			}
+			switch variant {
+			case 0:
+				l2.ForEach(func(i int, x any) { visit(x) })
+			case 1:
+				l2.ForEachValue(func(x any) { visit(x) })
+			case 2:
+				l2.Map(func(i int, x any) any { visit(x); return nil })
+			case 3:
+				l2.MapValues(func(x any) any { visit(x); return nil })
+			case 4:
+				l2.Filter(func(x any) bool { visit(x); return false })
+			default:
+				l2.Reduce(0, func(acc any, x any) any { visit(x); return acc })
+			}
+			if err := idSame(name+" whose callback replaced the last element while visiting element "+strconv.Itoa(at0), seen, want2); err != nil {
+				return err
+			}
+		}
+	}
+	// the accumulator of the untyped Reduce is the caller's business: any Go value, handed through untouched
+	type tally struct{ n int }
+	if got, ok := l.Reduce(tally{}, func(acc any, x any) any { a := acc.(tally); a.n++; return a }).(tally); !ok || got.n != n {
+		return errf("Reduce with a struct accumulator returned %v after %d elements", got, n)
+	}
+	if got, ok := l.Reduce([]any{}, func(acc any, x any) any { return append(acc.([]any), x) }).([]any); !ok || len(got) != n {
+		return errf("Reduce folding into a []any returned %d elements (ok=%v) for a list of %d", len(got), ok, n)
+	}
 	calls = 0
 	if err := idSame("Filter", listVals(l.Filter(func(x any) bool { calls++; return pred(calls-1, x) })), expectFilter(vals)); err != nil {
 		return err
